@@ -18,8 +18,7 @@ RULE = ("Hypothesis over API models with several services, duplicate RPC names a
         "each value = for some method of that name all request fields, required first and otherwise in declaration order. Non-trivial: "
         ">=2 services, or a keyword RPC, or a required field after an optional one, or numbers out of declaration order; distinct = "
         "(transport, #services, those flags).")
-ASSUMPTIONS = ["fix-up table field names are accepted with or without the reserved-word suffix (the statement does not say)",
-               "internal (selective generation) methods are covered by C16"]
+ASSUMPTIONS = ["fix-up table field names are accepted with or without the reserved-word suffix (the statement does not say)"]
 
 
 def budget(tier):
@@ -30,11 +29,22 @@ def budget(tier):
 def _case(draw):
     prof = S.profile(max_methods=5, max_services=3, p_http=0.5, p_sig=0.3, p_routing=0.05, p_paged=0.1, p_lro=0.1, p_stream=0.15,
                      p_dep_io=0.1, p_comment=0.02, max_messages=3, max_fields=6, max_files=2, p_keyword_rpc=0.12, p_reserved_field=0.12,
-                     required_fields=True, p_required=0.3, p_sparse_numbers=0.5, dup_rpc_names=True)
+                     required_fields=True, p_required=0.3, p_sparse_numbers=0.5, dup_rpc_names=True, p_twin_rpc=0.3)
     api = draw(S.apis(prof))
     t = draw(st.sampled_from(["grpc", "rest", "grpc+rest"]))
     opts = {"params": ["autogen-snippets=False", "metadata", f"transport={t}"], "snippets": False, "transport": t, "metadata": True}
-    return {"api": api, "options": opts}
+    internal = None
+    if draw(st.integers(0, 3)) == 0:
+        # selective generation in internal mode: unlisted RPCs become _<name>, their clients Base<Svc>Client
+        allm = [(f["package"], s["name"], m["name"]) for f, s, m in M.all_methods(api)]
+        kept = [x for x in allm if draw(st.booleans())] or allm[:1]
+        root = M.common_package(api)
+        host = next((s.get("host") for f in api["files"] for s in f.get("services", [])), "lib.acme.com")
+        opts["service_yaml"] = {"type": "google.api.Service", "config_version": 3, "name": host, "publishing": {"library_settings": [
+            {"version": root, "python_settings": {"common": {"selective_gapic_generation": {
+                "methods": [".".join(k) for k in kept], "generate_omitted_as_internal": True}}}}]}}
+        internal = [list(k) for k in kept]
+    return {"api": api, "options": opts, "internal_kept": internal}
 
 
 def strategy(tier):
@@ -69,8 +79,10 @@ def run_case(case, rec):
             clients = md["services"][s["name"]].get("clients", {})
             if set(clients) != kinds:
                 raise V("client-kinds", f"service {s['name']}: client kinds {sorted(clients)}, transports {options['transport']} imply {sorted(kinds)}")
+            kept = None if not case.get("internal_kept") else {tuple(k) for k in case["internal_kept"]}
+            has_unlisted = kept is not None and any((f["package"], s["name"], m["name"]) not in kept for m in s["methods"])
             for kind, cl in clients.items():
-                exp_cls = s["name"] + ("AsyncClient" if kind == "grpc-async" else "Client")
+                exp_cls = ("Base" if has_unlisted else "") + s["name"] + ("AsyncClient" if kind == "grpc-async" else "Client")
                 if cl.get("libraryClient") != exp_cls:
                     raise V("client-name", f"service {s['name']} kind {kind}: libraryClient {cl.get('libraryClient')!r}, expected {exp_cls!r}")
                 want_rpcs = sorted(m["name"] for m in s["methods"])
@@ -78,8 +90,11 @@ def run_case(case, rec):
                     raise V("rpc-set", f"service {s['name']} kind {kind}: rpcs {sorted(cl.get('rpcs', {}))}, input has {want_rpcs}")
                 for m in s["methods"]:
                     got = cl["rpcs"][m["name"]].get("methods")
-                    if got != [client_method_name(m["name"])]:
-                        raise V("rpc-method-name", f"service {s['name']} kind {kind}: RPC {m['name']} -> {got}, expected [{client_method_name(m['name'])!r}]")
+                    exp_m = client_method_name(m["name"])
+                    if kept is not None and (f["package"], s["name"], m["name"]) not in kept:
+                        exp_m = "_" + exp_m
+                    if got != [exp_m]:
+                        raise V("rpc-method-name", f"service {s['name']} kind {kind}: RPC {m['name']} -> {got}, expected [{exp_m!r}]")
         # fix-up script
         fx = [n for n in files if re.match(r"scripts/fixup_.*_keywords\.py$", n)]
         if len(fx) != 1:
@@ -139,4 +154,5 @@ def run_case(case, rec):
     for k, v in (("services", len(svcs)), ("keyword-rpc", kw), ("required-after-optional", flags["req_after_opt"]), ("numbers-out-of-order", flags["out_of_order"]),
                  ("duplicate-rpc-names", any(len(v) > 1 for v in by_rpc.values()))):
         rec.cls(f"{k}:{v}")
+    rec.cls("internal-mode:" + str(bool(case.get("internal_kept"))))
     rec.sample({"services": want_svcs, "transport": options["transport"], "table_keys": sorted(table)[:8]}, cap=3)
